@@ -1,0 +1,54 @@
+//go:build verif
+
+package influxql
+
+// C20: result column names are complete, stable and unambiguous.
+//
+// columnFields is the list of output columns in field order (each field,
+// followed by the tag arguments of top()/bottom() when there is no INTO);
+// off is 1 when the time column is present.
+//
+//@ func (*SelectStatement).ColumnNames
+//@   props C20 C13
+//@   safety C13
+//@   astparams
+//@   modifies @ast
+//@   frameprops C14 C17 C20
+//@   requires s != nil
+//
+// loop 1 (fields) and loop 2 (tag arguments of top/bottom): every field contributes
+// its own column first, in field order; nothing already collected is changed.
+//@   loop 1 invariant forall(k, 0, len(columnFields), columnFields[k] != nil)
+//@   loop 1 invariant [C20] len(columnFields) >= rangeindex + 1
+//@   loop 1 step [C20] len(columnFields) >= old(len(columnFields)) + 1 && columnFields[old(len(columnFields))] == field
+//@   loop 1 step [C20] (s.Target != nil || !istype(field.Expr, *Call) || (field.Expr.(*Call).Name != "top" && field.Expr.(*Call).Name != "bottom")) ==> len(columnFields) == old(len(columnFields)) + 1
+//@   loop 1 step [C20] forall(k, 0, old(len(columnFields)), columnFields[k] == old(columnFields[k]))
+//@   loop 2 invariant forall(k, 0, len(columnFields), columnFields[k] != nil)
+//@   loop 2 invariant [C20] len(columnFields) >= outer(1, len(columnFields)) + 1 && forall(k, 0, outer(1, len(columnFields)), columnFields[k] == outer(1, columnFields[k])) && columnFields[outer(1, len(columnFields))] == outer(1, s.Fields[rangeindex+1])
+//@   loop 2 step [C20] len(columnFields) == old(len(columnFields)) + ite(istype(arg, *VarRef), 1, 0)
+//@   loop 2 step [C20] istype(arg, *VarRef) ==> columnFields[old(len(columnFields))].Alias == "" && columnFields[old(len(columnFields))].Expr == arg
+//
+// loop 3 (aliases): explicit aliases verbatim, recorded as taken.
+//@   let n = len(columnFields)
+//@   loop 3 invariant [C20] len(columnNames) == n + offset && (offset == 0 || offset == 1) && iff(s.OmitTime, offset == 0)
+//@   loop 3 invariant [C20] !s.OmitTime ==> columnNames[0] == call("(*SelectStatement).TimeFieldName", s)
+//@   loop 3 invariant forall(k, 0, n, columnFields[k] != nil)
+//@   loop 3 invariant [C20] forall(k, 0, n, columnNames[k+offset] == ite(k <= rangeindex, columnFields[k].Alias, ""))
+//@   loop 3 invariant [C20] forall(k, 0, rangeindex+1, columnFields[k].Alias != "" ==> haskey(names, columnFields[k].Alias))
+//
+// loop 4 (generated names) with inner loop 5 (suffix search): a generated name is
+// never one that is already taken, so the only possible clash is between two
+// explicit aliases.
+//@   loop 4 invariant [C20] len(columnNames) == n + offset && (offset == 0 || offset == 1) && iff(s.OmitTime, offset == 0)
+//@   loop 4 invariant [C20] !s.OmitTime ==> columnNames[0] == call("(*SelectStatement).TimeFieldName", s)
+//@   loop 4 invariant forall(k, 0, n, columnFields[k] != nil)
+//@   loop 4 invariant [C20] forall(k, 0, n, columnFields[k].Alias != "" ==> columnNames[k+offset] == columnFields[k].Alias)
+//@   loop 4 invariant [C20] forall(k, rangeindex+1, n, columnFields[k].Alias == "" ==> columnNames[k+offset] == "")
+//@   loop 4 invariant [C20] forall(k, 0, n, (k <= rangeindex || columnFields[k].Alias != "") ==> haskey(names, columnNames[k+offset]))
+//@   loop 4 invariant [C20] forall(a, 0, n, forall(b, 0, n, (a != b && (a <= rangeindex || columnFields[a].Alias != "") && (b <= rangeindex || columnFields[b].Alias != "") && columnNames[a+offset] == columnNames[b+offset]) ==> (columnFields[a].Alias != "" && columnFields[b].Alias != "")))
+//
+//@   ensures [C20] @count len(result) == len(columnFields) + offset && len(columnFields) >= len(s.Fields)
+//@   ensures [C20] @time !s.OmitTime ==> (offset == 1 && result[0] == call("(*SelectStatement).TimeFieldName", s))
+//@   ensures [C20] @notime s.OmitTime ==> offset == 0
+//@   ensures [C20] @alias forall(k, 0, len(columnFields), columnFields[k].Alias != "" ==> result[k+offset] == columnFields[k].Alias)
+//@   ensures [C20] @distinct forall(a, 0, len(columnFields), forall(b, 0, len(columnFields), (a != b && result[a+offset] == result[b+offset]) ==> (columnFields[a].Alias != "" && columnFields[b].Alias != "")))
